@@ -162,6 +162,30 @@ def job_audio(j):
         for d, a in zip(explicit if files else [], v2.triggers()[-1]["actions"][len(files): len(files) + len(explicit)]):
             if not isinstance(a, dict) or a.get("type") != 8 or a["_duration_ms"] != d:
                 problems.append(f"PlayWav with explicit duration {d} ms is saved as {a.get('_duration_ms') if isinstance(a, dict) else a}")
+        # the same IO objects used for a whole session on ONE path: save, import sounds into that very file, save
+        # again - anything remembered about the archive from before the import must not be used afterwards
+        if files:
+            sess = work / "session.scx"
+            shutil.copyfile(BASES[j["base"]], sess)
+            rich0 = mpq_io.read_chk_from_mpq(str(sess))
+            mpq_io.save_chk_to_mpq(rich0, str(sess), str(work / "session-copy.scx"))
+            staged = work / "session-with-sounds.scx"
+            wav_io.add_audio_files_to_mpq([str(f) for f in files], str(sess), str(staged))
+            os.replace(str(staged), str(sess))
+            rich1 = mpq_io.read_chk_from_mpq(str(sess))
+            trig1 = next(s for s in rich1.chk_sections if isinstance(s, RichTrigSection))
+            t1 = RichTrigger(_conditions=[AlwaysCondition()], _players={PlayerId.PLAYER_1},
+                             _actions=[PlayWavAction(_path_to_wav_in_mpq="staredit\\wav\\" + f.name) for f in files])
+            rich3 = RichChkEditor().replace_chk_section(RichTrigSection(_triggers=trig1.triggers + [t1]), rich1)
+            try:
+                mpq_io.save_chk_to_mpq(rich3, str(sess), str(work / "session-final.scx"))
+                v3 = SC.SpecView(SC.save(mpq_io.read_chk_from_mpq(str(work / "session-final.scx"))))
+                for f, a in zip(files, v3.triggers()[-1]["actions"][: len(files)]):
+                    if not isinstance(a, dict) or a.get("type") != 8 or a["_duration_ms"] != true_duration_ms(f):
+                        problems.append(f"same-session save after import: PlayWav duration "
+                                        f"{a.get('_duration_ms') if isinstance(a, dict) else a} != true duration {true_duration_ms(f)}")
+            except Exception as ex:  # noqa
+                problems.append(f"same-session save after import raised {type(ex).__name__}: {str(ex)[:120]}")
         return {"problems": problems, "members": len(mo)}
     finally:
         shutil.rmtree(work, ignore_errors=True)
